@@ -302,22 +302,30 @@ def run(R, env):
                             good = False
             R.ob("C14.R4", "UpdateConfig:world:" + "".join("1" if mask >> i & 1 else "0" for i in range(5)), good, "supplied sections %s but fields written %s" % (sorted(".".join(x) for x in want), sorted(".".join(x) for x in got) if got is not None else None), fn=hk)
         R.worlds += nworld
-        # fee config validated against the protocol section in force (supplied or stored)
-        for op, alts in shared.state_writes(prog, uc, env, ns="config"):
-            from engine.analysis import forms
-            vals = []
-            for f_ in forms(prog, op.get("value") or op["args"][2], 2):
-                vals = [s_ for s_ in subterms(f_) if s_[0] == "upd" and s_[2] == ("protocol_fee_config",)]
-                if vals:
-                    break
-            good = bool(vals)
-            for s_ in vals:
-                c = shared.unwrap_payload(s_[3])
-                arg = c[2][1] if c[0] == "call" and len(c[2]) == 2 else ("none",)
-                for a in (arg[1] if arg[0] == "phi" else (arg,)):
-                    if not (from_validate(a, "ProtocolChainConfig") or loaded_field(prog, a, "config", ["protocol_chain_config"], CRATE)):
-                        good = False
-            R.ob("C14.R4", "UpdateConfig:fee-config-validated-against-protocol-section", good, "the fee section's treasury address is not validated with the protocol section in force", loc=op["loc"], fn=hk)
+        # fee config validated against the protocol section in force: the one supplied with the same
+        # message when there is one, else the stored one — decided in the two worlds of the protocol section
+        for psome in (True, False):
+            rem = Rem()
+            r_, _ = world_edges(uc, preds["protocol_fee_config"], True)
+            rem |= r_
+            r_, _ = world_edges(uc, preds["protocol_chain_config"], psome)
+            rem |= r_
+            w = uc.with_removed(rem).settle()
+            R.worlds += 1
+            for op, alts in shared.state_writes(prog, w, env, ns="config"):
+                good = False
+                for base, d in alts or []:
+                    v = d.get(("protocol_fee_config",))
+                    if v is None or v[0] != "payload":
+                        continue
+                    c = shared.unwrap_payload(v)
+                    arg = c[2][1] if c[0] == "call" and len(c[2]) == 2 else ("none",)
+                    alts_ = arg[1] if arg[0] == "phi" else (arg,)
+                    if psome:
+                        good = all(from_validate(a_, "ProtocolChainConfig") for a_ in alts_)
+                    else:
+                        good = all(loaded_field(prog, a_, "config", ["protocol_chain_config"], CRATE) for a_ in alts_)
+                R.ob("C14.R4", "UpdateConfig:fee-config-validated-against-protocol-section:%s" % ("supplied" if psome else "stored"), good, "with the protocol section %s, the fee section's treasury address is not validated against the protocol section in force" % ("supplied in the same message" if psome else "absent"), loc=op["loc"], fn=hk)
     # ------------------------------------------------------------ R5 validators add / remove
     dctx, table = handlers(prog, CRATE)
     for v, kind in (("AddValidator", "add"), ("RemoveValidator", "remove")):
